@@ -11,7 +11,8 @@ fi
 work=$SCRATCH/build-$profile-$$
 rm -rf "$work"; mkdir -p "$work"
 /verif/bin/kvinstr -src "$KEVO_SRC" -out "$work" -overlay "$work/overlay.json" -profile "$profile" >&2 || { rm -rf "$work"; exit 2; }
-bin=/verif/bin/kvcheck-$profile${race:+-race}
+bindir=${VERIF_BIN:-/verif/bin}; mkdir -p "$bindir"
+bin=$bindir/kvcheck-$profile${race:+-race}
 flags=""
 [ -n "$race" ] && flags="-race"
 # -trimpath keeps the build cache valid although the scratch dir name changes
